@@ -207,6 +207,15 @@ def task_application(ctx, cfg):
     out = f_scalar({'a': x, 'b': xs, 't': jnp.asarray(1.5)})
     return (out['a'], out['b'], out['t']), (x * fac, xs * fac, jnp.asarray(1.5))
   prove_close(ctx, 'filter_is_elementwise_product_on_spectral_leaves', app, [x, xs], sp, config=conf)
+  # the same on integer-valued leaves STORED as int64 (counters, masks, indices carried in the state next to the prognostic fields)
+  spi = Space(bits=12)
+  xi = harness.with_dtype(spi, PolyArr.variables(spi, 'xi', (K,) + ms, lo=-4.0, hi=4.0), 'int64')
+  xsi = harness.with_dtype(spi, PolyArr.variables(spi, 'xsi', (1,) + ms, lo=-4.0, hi=4.0), 'int32')
+
+  def app_int(x, xs):
+    out = f_scalar({'a': x, 'b': xs, 't': jnp.asarray(1.5)})
+    return (out['a'], out['b'], out['t']), (x.astype(jnp.float64) * fac, xs.astype(jnp.float64) * fac, jnp.asarray(1.5))
+  prove_close(ctx, 'filter_is_elementwise_product_on_spectral_leaves', app_int, [xi, xsi], spi, config=dict(conf, leaf_dtype='int64/int32'))
 
   def slicewise(x):
     whole = f_vec(x)
